@@ -318,6 +318,9 @@ func runJob(ld *sym.Loaded, j *job, tier, scratch string, verbose bool) (res *sy
 	if j.spec.Opts["codec"] == "real" {
 		c.RealTokenCodec = true
 	}
+	if j.spec.Opts["spelling"] == "1" {
+		c.Spellings = true
+	}
 	if j.spec.Opts["races"] == "1" {
 		c.Races = true
 	}
